@@ -215,8 +215,75 @@ func sinksDirect(fn *ssa.Function) []sinkInfo {
 			s.loopColl = loopCollectionDesc(l)
 		}
 		out = append(out, s)
+		// `x.list = append(x.list, v)` in a loop that starts from an empty list files v as element i of the list, like
+		// `x.list[i] = v` into a list of full length: also reported as the per-element sink
+		if st, isSt := i.(*ssa.Store); isSt {
+			if e, l := appendedElement(st); e != nil {
+				es := sinkInfo{ins: st, target: desc(st.Addr) + "[" + inductionName(l.Header) + "]", val: e, valDesc: desc(e), loopColl: loopCollectionDesc(l)}
+				if g := genCallOf(e); g != nil && len(callArgs(g)) > 0 {
+					if a, ok := affineOf(callArgs(g)[0]); ok {
+						es.genArg = a.String()
+					}
+				}
+				out = append(out, es)
+			}
+		}
 	})
 	return out
+}
+
+// appendedElement: st is `addr = append(*addr, e)` with one element, inside a loop, and the list is empty when the loop
+// is entered (its only other assignment in the function is an empty make/literal/nil); returns e and the loop.
+func appendedElement(st *ssa.Store) (ssa.Value, *Loop) {
+	c, ok := st.Val.(*ssa.Call)
+	if !ok || !isCallTo(c, "builtin:append") {
+		return nil, nil
+	}
+	l := innermostLoopOf(st.Block())
+	if l == nil {
+		return nil, nil
+	}
+	ld, ok := callArgs(c)[0].(*ssa.UnOp)
+	if !ok || ld.Op != token.MUL || desc(ld.X) != desc(st.Addr) {
+		return nil, nil
+	}
+	tail, ok := seqTail(callArgs(c)[1], 0, map[ssa.Value]bool{})
+	if !ok || len(tail) != 1 || tail[0].Kind != "elem" || tail[0].V == nil {
+		return nil, nil
+	}
+	// every other store to the same place lies outside the loop and stores an empty list
+	d := desc(st.Addr)
+	okInit := true
+	allInstrs(st.Parent(), func(i ssa.Instruction) {
+		o, isSt := i.(*ssa.Store)
+		if !isSt || o == st || desc(o.Addr) != d {
+			return
+		}
+		if l.Body[o.Block()] {
+			okInit = false
+			return
+		}
+		switch v := o.Val.(type) {
+		case *ssa.MakeSlice:
+			if n, isC := constInt(v.Len); !isC || n != 0 {
+				okInit = false
+			}
+		case *ssa.Const:
+			if v.Value != nil {
+				okInit = false
+			}
+		case *ssa.Slice:
+			if al, isAl := v.X.(*ssa.Alloc); !isAl || !strings.HasPrefix(typeStr(al.Type()), "*[0]") {
+				okInit = false
+			}
+		default:
+			okInit = false
+		}
+	})
+	if !okInit {
+		return nil, nil
+	}
+	return tail[0].V, l
 }
 
 // loopCollectionDesc: the collection a loop walks: `range X` or `i < len(X)`; a counted loop `i < n` gives "#n".
@@ -415,7 +482,7 @@ func randomizerSourceRule(P *Program, R *Report) {
 	if fn := mustFunc(P, R, rule, "gabi.NewKeyshareCommitments"); fn != nil {
 		ok := false
 		for _, r := range returnsOf(fn) {
-			if g := genCallOf(r.Results[0]); g != nil && calleeIs(g, "common.RandomBigInt") && g.Parent() == fn {
+			if g := genCallOf(retValue(r, 0)); g != nil && calleeIs(g, "common.RandomBigInt") && g.Parent() == fn {
 				ok = true
 			}
 		}
@@ -506,7 +573,11 @@ var randomizerHolders = map[string]bool{"gabi.DisclosureProofBuilder": true, "ga
 
 func typeKey(t types.Type) string {
 	if n := namedOf(t); n != nil && n.Obj().Pkg() != nil {
-		return shortPkg(n.Obj().Pkg().Path()) + "." + n.Obj().Name()
+		k := shortPkg(n.Obj().Pkg().Path()) + "." + n.Obj().Name()
+		if a, ok := typeNameAlias[k]; ok {
+			return a
+		}
+		return k
 	}
 	return ""
 }
@@ -583,7 +654,8 @@ func noEscapeRule(P *Program, R *Report) {
 			}
 			for i := 0; i < st.NumFields(); i++ {
 				if mentionsHolder(st.Field(i).Type(), 0) {
-					holderFields = append(holderFields, shortPkg(p.Pkg.Path())+"."+n+"."+st.Field(i).Name())
+					tk := shortPkg(p.Pkg.Path()) + "." + n
+					holderFields = append(holderFields, tk+"."+refFieldName(tk, st.Field(i).Name()))
 				}
 			}
 		}
@@ -822,7 +894,7 @@ func cacheProtocolRule(P *Program, R *Report) {
 								if rv != v {
 									continue
 								}
-								if len(u.Results) == 1 {
+								if retCount(u) == 1 {
 									walk(call)
 								}
 								for _, rr := range referrersOf(call) {
